@@ -211,6 +211,40 @@ CLAIMS['C05'] = dict(
          'One site outside the tables is a known finding (multi-line lambda bailout in initializationListUsage); two were repaired.',
     design='3/C05', note='Only the whitespace / blank-line / comment family is covered, and only as a necessary condition; renaming and reordering rewrites are not decided.')
 
+# rules added while triaging seeded changes and replayed defects (see DESIGN.md 8.4/8.5); appended to the decided text of each claim
+EXTRA = {
+    'C05': 'R05.2: token lists are rendered with line breaks / line numbers / file names only by the printers of the Token class.',
+    'C10': 'R10.4: the CHAR_MIN / CHAR_MAX limit defines follow the plain-char signedness (one known finding).',
+    'C13': 'R13.5: every signed 64-bit division / modulo with a non-literal divisor is guarded against zero and LLONG_MIN / -1. R13.6: every non-null write of '
+           'Type::BaseInfo::type is dominated by a negative findDependency test (the recursive hierarchy walkers rely on an acyclic base graph).',
+    'C14': 'R14.3: every local pointer whose id is written as a reference attribute is added unconditionally to the collection its defining elements are emitted from.',
+    'C15': 'R15.1 also requires lossless operands (three known findings: fixInvalidChars in serialize). R15.4: Executor::hasToLog passes every internal message. '
+           'R15.5: suppression state reported by several workers is merged (add, else update).',
+    'C16': 'The protected set of a mutex is the union of the majority set and the fields some method modifies under the lock (contradiction rule); pointers to protected '
+           'elements must not outlive the lock scope.',
+    'C17': 'R17.4: function-local statics reachable from CppCheck::check are not initialised from parameters, locals or this.',
+    'C18': 'R18.5: no commutative accumulation of sub-hashes. R18.6: the key includes the name of every loaded file. R18.1/R18.2 cover the helpers of the key function.',
+    'C19': 'R19.2 also requires Settings::includePaths in the key. R19.4: option flags are position-coded or use distinct literal markers. R19.5: the suppression dump used '
+           'for the key omits inline suppressions only.',
+    'C20': 'R20.5: in CppCheck::checkInternal no call that can report a finding is executed after a call that reaches AnalyzerInformation::close().',
+    'C21': 'R21.5: every removal from the list of pending read pipes is dominated by "handleRead returned false".',
+    'C22': 'R22.6: the reader keeps every parsed record. R22.7: numeric members are restored through a conversion whose type covers the member type.',
+    'C23': 'R23.5: Settings::basePaths is read in lib/ only as the argument of Path::getRelativePath (one implementation for finding and suppression file names).',
+    'C26': 'R26.6: the duplicate filter in front of the text / XML / SARIF writers does not depend on the output format (its dependence on --template is a known finding).',
+    'C27': 'R27.3: functions that select one ValueFlow::Value test the severity / certainty options only after the selection loop.',
+    'C28': 'R28.4: CppCheck::getErrorMessages passes the caller\'s logger to every documentation emitter.',
+    'C29': 'Containers with a user comparator that compares the pointers themselves count as address-ordered; key types that are template parameters are resolved through the '
+           'call sites; appends to sequence containers and early exits count as order-capturing (one known finding: productParams).',
+    'C34': 'R34.6: internal (ctuinfo) messages pass the executors\' gate unfiltered.',
+    'C36': 'R36.3: the grouping loop iterates the complete list built by the SAX handler (alias, order-only derivation, or a helper that keeps every element).',
+    'C24': 'R24.2 counts Suppression::isSuppressed among the parent-side consumers; R24.3 requires add-or-merge on the failure path of addSuppression.',
+    'C25': 'R25.1 accepts accounting before or after the forward on every path (post-dominance).',
+}
+for _k, _v in EXTRA.items():
+    if _k in CLAIMS:
+        CLAIMS[_k]['text'] = CLAIMS[_k]['text'].rstrip() + ' Added rules: ' + _v
+
+
 NOT_APPLICABLE = {
     'C01': 'soundness of inferred values vs. concrete executions of arbitrary programs; needs an executing/symbolic oracle, no structural necessary condition in valueflow.cpp',
     'C02': 'same as C01, for container sizes',
